@@ -69,6 +69,7 @@ theorem txStep_updateClient (s : St) (c : Nat) (w : Wrap) (hd : Hdr) (ibc : Bool
     txStep s [.updateClient c w hd ibc] = step s (.updateClient c w hd ibc) := by
   cases w with
   | nested => simp [txStep, List.findSome?, nestedRefusal, step, updateClient]
+  | storedProposal => simp [txStep, List.findSome?, nestedRefusal, step, updateClient]
   | wrapped => simp [txStep, List.findSome?, nestedRefusal, signerRefusal, step, updateClient]
   | nestedWrapped => simp [txStep, List.findSome?, nestedRefusal, signerRefusal, anteAll, anteMsg, execAll, execMsg, step, updateClient]
   | top =>
